@@ -288,7 +288,7 @@ impl CaseDriver for Convert {
                 "tracks are instantiated period by period as the MetalLayer documentation describes; signal track n of a layer is the n-th signal track counted from the outline origin (this is also how the exporter picks the track to cut / assign)".into(),
                 "per period, an instance whose cell reaches the layer and whose reflection-aware bounding box overlaps the period blocks, on every track of that period, the extent of that bounding box along the track".into(),
                 "a rail shared by two adjacent periods through `overlap` may be emitted once or once per period: exact duplicates of rail rectangles are collapsed on both sides; zero-area rectangles are ignored; everything else is compared as a multiset of (layer, rectangle, net)".into(),
-                "Err is an allowed result (counted); not judged (counted as unjudged): overlapping cut / blocked spans, spans reaching beyond the far outline edge, an assignment on a cut or exactly on a piece boundary, two different nets on one piece; a cut reaching below coordinate 0 is expected to be clipped at the outline edge".into(),
+                "Err is an allowed result (counted); not judged against the full reference (counted as unjudged; only 'no wire inside a requested cut' is checked): overlapping cut / blocked spans, spans reaching beyond the far outline edge, an assignment on a cut or exactly on a piece boundary, two different nets on one piece; a cut reaching below coordinate 0 is expected to be clipped at the outline edge".into(),
                 "an assignment whose crossing lies under an instance still yields its via; on the blocked layer there is no wire piece to carry the net".into(),
                 "layer purpose of the emitted elements and the raw instances are not judged".into(),
             ],
@@ -439,6 +439,31 @@ impl CaseDriver for Convert {
         };
         if let RefOut::Unjudged(why) = &wants.last().unwrap().1 {
             cx.outcome(&format!("unjudged-ok:{why}"));
+            // whatever the reading of such an input: a compiled cell never has wire inside a requested cut of the
+            // same track
+            if let Some((_, got, _)) = obs.iter().find(|(n, _, _)| n == "top") {
+                for (li, (ts, tw), (a, b), is_blk) in tm::removed_spans(sd, cell, &case.children, STATEMENT) {
+                    // (blocked spans are left out: a rail shared by two periods is legitimately drawn by the period the
+                    // instance does not touch)
+                    if b <= a || is_blk {
+                        continue;
+                    }
+                    let horiz = sd.layers[li].horiz;
+                    for e in got.iter().filter(|e| e.layer == LayerId::Metal(li)) {
+                        let (across, along) = if horiz { ((e.y0, e.y1), (e.x0, e.x1)) } else { ((e.x0, e.x1), (e.y0, e.y1)) };
+                        if across == (ts, ts + tw) && along.0 < b && along.1 > a && along.1 > along.0 {
+                            cx.fail(
+                                key,
+                                if is_blk { "wire-inside-a-blocked-span" } else { "wire-inside-a-requested-cut" },
+                                None,
+                                || format!("cell top, metal {li}, track at {ts}..{}: wire {}..{} reaches into the {} {a}..{b} (input otherwise unjudged: {why})", ts + tw, along.0, along.1, if is_blk { "blocked span" } else { "requested cut" }),
+                                || detail(Value::Null),
+                            );
+                            return;
+                        }
+                    }
+                }
+            }
             if std::env::var("C08_SHOW_UNJUDGED").is_ok() {
                 // debugging aid only: surfaces one example per class as a (fake) violation
                 let got = obs.iter().find(|(n, _, _)| n == "top").map(|(_, g, _)| tm::canonical(g)).unwrap_or_default();
